@@ -171,3 +171,15 @@ package ingress
 //@   ensures [C12:unreadable_or_oversize_body_without_effect] bodyReads == old(bodyReads) + 1 && lastReadErr != nil ==> enqueues == old(enqueues) && respStatus == ite(errAs(lastReadErr, "*net/http.MaxBytesError"), 413, 400)
 //@   ensures [C12:oversize_headers_is_413_without_effect] headerCopies == old(headerCopies) + 1 && !headersFit ==> respStatus == 413 && enqueues == old(enqueues)
 //@   ensures [C12:at_most_one_read] bodyReads == old(bodyReads) || bodyReads == old(bodyReads) + 1
+
+// ---- C08: constructors used by the wiring in internal/app ----
+
+//@ func NewBasicAuth
+//@   loop 1 invariant [copied] forall k string :: k in visited ==> k in out && out[k] == users[k]
+//@   loop 1 invariant [only] forall k string :: k in out ==> k in users && out[k] == users[k]
+//@   loop 1 invariant [fresh] out != nil && fresh(out) && out != users
+//@   ensures [C08:configured_users_yield_an_authenticator_with_exactly_those_users] len(users) > 0 ==> result != nil && fresh(result) && (forall k string :: ((k in result.Users) <==> (k in users)) && (k in users ==> result.Users[k] == users[k]))
+//@   ensures [C08:no_users_no_authenticator] len(users) == 0 ==> result == nil
+
+//@ func NewForwardAuth
+//@   ensures [C08:forward_auth_targets_the_configured_url] result != nil && fresh(result) && result.URL == trim(url)
